@@ -467,6 +467,10 @@ pub open spec fn dec_from_atomics(v: nat, places: nat) -> nat {
 }
 
 
+impl core::ops::AddAssign for Decimal {
+    #[verifier::external_body]
+    fn add_assign(&mut self, o: Decimal) ensures old(self)@ + o@ <= U128_MAX, final(self)@ == old(self)@ + o@ { unimplemented!() }
+}
 impl core::ops::Sub for Decimal256 {
     type Output = Decimal256;
     #[verifier::external_body]
